@@ -222,6 +222,9 @@ var c01Special = []string{
 	"<p title=\"a &lt; b\">", "&amp;{{.X}}", "<p\ttitle\n=\r\"{{.X}}\"\f>", "<img src=\"/a.png\" alt=\"{{.X}}\"/>", "<p title='{{.X}}' lang=\"{{.Y}}\">",
 	"{{range .L}}<li>{{.}}</li>{{end}}", "{{with .M}}<i title=\"{{.X}}\">{{.X}}</i>{{end}}", "{{template \"h0\" .}}", "<b>{{template \"h1\" .}}</b>",
 	"<!-- off: {{template \"h0\" .}} -->", "<p><!--{{template \"h1\" .}}--></p>", "<!-- {{.X}} {{template \"h2\" .}}-->",
+	// characters that Unicode calls white space but an HTML tokenizer does not
+	"<a title=\u3000\"{{.X}}\">", "<a\u3000title=\"{{.X}}\">", "<a title=\x0b\"{{.X}}\">", "<p title=\u00a0'{{.X}}'>", "<p title\u2028=\"{{.X}}\">", "<p\x0btitle=\"{{.X}}\">x</p>",
+	"<p title=\x85\"{{.X}}\">", "<a title=\u3000{{.X}}>",
 }
 
 // recursive and mutually recursive templates that leave a tag or an attribute open
@@ -289,9 +292,21 @@ func genC01(c *Ctx) {
 			c.stats.Classes["unparsable"]++
 			continue
 		}
+		cls := ""
+		if c.rng.Intn(6) == 0 {
+			// an earlier, refused execution of a partial that shares helpers with the template must leave no trace
+			hb2 := newHistBuilder()
+			hb2.add(Step{Op: "new", H: 0, Name: "root"})
+			partial := pick(c, []string{"{{template \"h0\" .}}<div class=\"", "{{template \"h1\" .}}{{template \"h0\" .}}<a href=\"/x", "<p>{{template \"h0\" .}}</p><!-- ", "{{template \"h2\" .}}<textarea>", "<b>{{template \"h0\" .}}</b><script>"})
+			if hb2.add(Step{Op: "parse", H: 0, Text: text + "{{define \"zpartial\"}}" + partial + "{{end}}"}) != "" {
+				hb2.add(Step{Op: "exect", H: 0, Name: "zpartial", Data: data})
+				hb = hb2
+				cls = "after-refused-partial-"
+			}
+		}
 		hb.add(Step{Op: "exec", H: 0, Data: data})
 		r := realC01(hb.hist())
-		c.emit("tmpl.c01", []string{hb.hist()}, r, strings.HasPrefix(r, "ok") && valHasSpecial(data), splitLast(r))
+		c.emit("tmpl.c01", []string{hb.hist()}, r, strings.HasPrefix(r, "ok") && valHasSpecial(data), cls+splitLast(r))
 	}
 }
 
@@ -329,6 +344,9 @@ func (c *Ctx) c02Text() (string, string) {
 			"{{if .C}}/x{{else}}" + st + "{{end}}{{.B}}",
 			"{{if .C}}{{if .D}}" + st + "{{else}}/x{{end}}{{else}}/x{{end}}{{.B}}",
 			"{{if .C}}" + st + "{{end}}{{.B}}",
+			"{{if .C}}{{else}}" + st + "{{end}}{{.B}}",
+			"{{if .C}}{{else}}{{if .D}}{{else}}" + st + "{{end}}{{end}}{{.B}}",
+			"{{with .Z}}{{else}}" + st + "{{end}}{{.B}}",
 		})
 		return "<" + t[0] + " " + t[1] + "=" + q + form + q + ">", "ambig-prefix"
 	case 15:
@@ -344,7 +362,7 @@ func (c *Ctx) c02Text() (string, string) {
 		return "<" + t[0] + rel + " " + t[1] + "=" + q + pick(c, c02Prefixes) + "{{.X}}" + q + ">", "url1"
 	case 3, 4: // split over adjacent actions / branches / range
 		t := pick(c, urlTargets)
-		form := pick(c, []string{"{{.A}}{{.B}}", "{{.A}}{{if .C}}{{.B}}{{end}}", "{{range .P}}{{.}}{{end}}", "{{.A}}{{template \"hb\" .}}", "{{template \"ha\" .}}{{.B}}", "{{with .M}}{{.V}}{{end}}{{.B}}"})
+		form := pick(c, []string{"{{.B | html .A}}", "{{.A | html .B}}", "{{.B | urlquery .A}}", "{{html .A .B}}", "{{.A}}{{.B}}", "{{.A}}{{if .C}}{{.B}}{{end}}", "{{range .P}}{{.}}{{end}}", "{{.A}}{{template \"hb\" .}}", "{{template \"ha\" .}}{{.B}}", "{{with .M}}{{.V}}{{end}}{{.B}}"})
 		return "<" + t[0] + " " + t[1] + "=" + q + pick(c, []string{"", "", "/x?"}) + form + q + ">{{define \"ha\"}}{{.A}}{{end}}{{define \"hb\"}}{{.B}}{{end}}", "split"
 	case 5, 6: // code-loading URL: data at the origin-determining start
 		t := pick(c, codeTargets)
@@ -363,7 +381,8 @@ func (c *Ctx) c02Text() (string, string) {
 	case 8: // handlers, style, srcdoc
 		return "<p " + pick(c, []string{"onclick", "ONCLICK", "onmouseover", "style", "STYLE", "srcdoc", "onfoo", "on"}) + "=" + q + pick(c, []string{"", "f(", "color:"}) + "{{.X}}" + q + ">", "attr-code"
 	case 9: // comments
-		return pick(c, []string{"<!-- {{.X}} -->", "<!--{{.X}}-->", "<!-- a -->{{.X}}", "<p><!-- {{.X}}", "<!--[if IE]>{{.X}}<![endif]-->"}), "comment"
+		return pick(c, []string{"<!-- {{.X}} -->", "<!--{{.X}}-->", "<!-- a -->{{.X}}", "<p><!-- {{.X}}", "<!--[if IE]>{{.X}}<![endif]-->",
+			"<?xml version=\"1.0\" encoding=\"{{.X}}\"?>", "<?php {{.X}} ?>", "<!x {{.X}}>", "</ {{.X}}>", "<![CDATA[{{.X}}]]>", "<!DOCTYPE html {{.X}}>", "{{range .P}}<?xml {{.}}?>{{end}}"}), "comment"
 	case 10: // helper shared between two sites
 		return "<a href=\"{{template \"u\" .}}\">a</a><a href=\"/x?q={{template \"u\" .}}\">b</a><p title=\"{{template \"u\" .}}\">{{define \"u\"}}{{.X}}{{end}}", "shared-helper"
 	case 11: // context-changing helper
